@@ -21,3 +21,63 @@ package twofactor
 //@           (forall m int :: (0 <= m && m < len(codes) - 1) ==> elem(result.0, m) == elem(codes, ite(m < i, m, m + 1)))),
 //@       (forall k int :: (0 <= k && k < len(codes)) ==> !hash_ok(elem(codes, k), inputCode)))
 //@   ensures no_panic: !panics
+//@
+//@ func GenerateRecoveryCodes
+//@   property C13 C12
+//@   option summary callers use this contract, not the body
+//@   option trusted body not verified (formatting of 10 random codes over an alphabet; two nested loops over a strings.Builder)
+//@   ensures ten_codes: result.1 == nil ==> len(result.0) == 10
+//@
+//@ func BCryptRecoveryCodes
+//@   property C13 C12 C17
+//@   option summary callers use this contract, not the body
+//@   invariant loop#1 hashed_so_far: rangeindex >= -1 && len(cryptedCodes) == len(codes) &&
+//@       (forall k int :: (0 <= k && k <= rangeindex) ==> hash_ok(elem(cryptedCodes, k), elem(codes, k)))
+//@   ensures all_hashed: result.1 == nil ==> (len(result.0) == len(codes) &&
+//@       (forall k int :: (0 <= k && k < len(codes)) ==> hash_ok(elem(result.0, k), elem(codes, k))))
+//@   ensures no_panic: !panics
+//@
+//@ func (EmailVerify).Wrap#1
+//@   property C13
+//@   -- with e-mail authorisation required the wrapped route only runs for a session that
+//@   -- holds the authorisation mark
+//@   ensures wrap_blocks: each Next.ServeHTTP(_, _, _) =>
+//@       (!e.Config.Modules.TwoFactorEmailAuthRequired || sess(r, Session2FAAuthed) == "true")
+//@   ensures wrap_forwards_or_redirects: !panics ==> (emits Next.ServeHTTP(_, _, _) || emits Redirect(_))
+//@   ensures never_touches_session: !emits Sess.Put(_, _)
+//@
+//@ func (EmailVerify).End
+//@   property C13 C18
+//@   -- the authorisation mark is only set for the token that was issued into this session
+//@   ensures[C13] email_token: each Sess.Put(?k, ?v) => k == Session2FAAuthed && v == "true" &&
+//@       sess_has(r, Session2FAAuthToken) && sess(r, Session2FAAuthToken) != "" &&
+//@       (before Body.Read(PageVerifyEnd2FA) -> (?vals, ?re) :: re == nil && val(vals, "GetToken") == sess(r, Session2FAAuthToken))
+//@   ensures[C13] token_spent: each Sess.Put(Session2FAAuthed, _) => before Sess.Del(Session2FAAuthToken)
+//@   ensures[C18] no_panic: !panics
+//@
+//@ func (EmailVerify).PostStart
+//@   property C13
+//@   -- the token put into the session is 16 fresh bytes and is mailed to the current user's address
+//@   ensures token_issued: each Sess.Put(?k, ?t) => k == Session2FAAuthToken &&
+//@       (emits Rand.Read(?n) -> ?re :: re == nil && len(n) == 16 && t == b64url(n))
+//@   ensures mailed_to_owner: each Mail.Send(?m) => elem(m.To, 0) == Email(ite(ctxuser(r) != nil, ctxuser(r), ctxuser(r))) || ctxuser(r) == nil
+//@
+//@ func SetupEmailVerify
+//@   property C13
+//@   ensures routes_protected: each Router.Register(_, _, ?h) => prefixof("MW2(reqs=1,mountPathed=true)>ErrorHandler.Wrap>(EmailVerify).", layers(h))
+//@
+//@ func (*Recovery).Setup
+//@   property C13
+//@   ensures routes_protected: each Router.Register(_, ?p, ?h) => p == "/2fa/recovery/regen" &&
+//@       prefixof("MW2(reqs=1,mountPathed=true)>ErrorHandler.Wrap>(*Recovery).", layers(h))
+//@
+//@ func (*Recovery).PostRegen
+//@   property C13 C12 C18
+//@   -- new recovery codes are only ever saved for the request's own user, as bcrypt hashes
+//@   ensures[C13] owner_only: each Store.Save(?s) -> _ =>
+//@       ite(ctxuser(r) != nil, s == ctxuser(r), before Store.Load(?p) -> (?u, ?le) :: le == nil && u == s &&
+//@           p == ite(ctxpid(r) != nil, asstring(ctxpid(r)), sess(r, "uid")))
+//@   ensures[C13,C12] only_recovery_codes: each Store.Save(?s) -> _ => PID(s) == old(PID(s)) && TOTPSecretKey(s) == old(TOTPSecretKey(s)) && Password(s) == old(Password(s))
+//@   ensures[C13] never_touches_session: !emits Sess.Put(_, _)
+//@   ensures[C18] no_panic: !panics
+//@   ensures[C18] save_error_outcome: each Store.Save(_) -> ?e => e != nil ==> (result == e && !emits Respond(_, _, _))
